@@ -183,8 +183,8 @@ CHECKS['C01'] = dict(
          'parse-and-render returns a string for every text with the HTML renderer, the Markdown renderer (every option '
          'set), the Jira renderer and the XWiki renderer (Props/C01_Renderers.lean: no render-map KeyError, no IndexError '
          'on empty containers, no TypeError; each renderer model raises on a tree exactly outside a decidable shape '
-         'predicate that every parsed document satisfies; XWiki partial: its macro tokens are not produced by the parser '
-         'model), the renderer models being tied to the real renderers byte for byte (md.render, jira.render, '
+         'predicate that every parsed document satisfies; with the LaTeX renderer a string or the documented \\verb '
+         'refusal), the renderer models being tied to the real renderers byte for byte (md.render, jira.render, '
          'xwiki.render units). Pygments and wall-clock time are not modelled: explored on the implementation under all '
          'configurations.',
     note='Trusted: Lean kernel (axioms propext/Classical.choice/Quot.sound at most); correspondence harness; SIGALRM '
